@@ -255,7 +255,13 @@ func (g *gen) newStruct(pkg string, withFields bool) TypeID {
 			} else {
 				ft = g.freshFieldType()
 			}
-			t.Fields = append(t.Fields, Field{Name: "F" + string(rune('A'+ (n-1-i))), Type: ft}) // reverse alphabetical on purpose
+			f := Field{Name: "F" + string(rune('A'+(n-1-i))), Type: ft} // reverse alphabetical on purpose
+			if pkg == "" && g.c.T(ft).Kind == KStruct && g.c.T(ft).Pkg == "" && g.want("embedded", "embedded", 35) {
+				// embedded field: its name is the type name
+				f.Name = g.c.T(ft).Name
+				f.Emb = true
+			}
+			t.Fields = append(t.Fields, f)
 		}
 	}
 	if pkg == "" && g.want("ptrrecv", "ptrrecv", 20) {
